@@ -48,6 +48,25 @@ class Violation(Exception):
                 'class': self.cls, 'detail': self.detail}
 
 
+_WITH = {}
+
+
+def _is_with_line(code, line):
+    """An exception injected at the line event of a `with` statement can
+    arrive after the body finished but before __exit__ is called (the
+    normal-exit call is outside the protected range), which leaks the
+    context manager - an artefact of asynchronous injection, not of the
+    library.  The cancel fault waits for the next line instead."""
+    key = (code.co_filename, line)
+    v = _WITH.get(key)
+    if v is None:
+        import linecache
+        src = linecache.getline(code.co_filename, line).strip()
+        v = src.startswith(('with ', 'async with '))
+        _WITH[key] = v
+    return v
+
+
 def install():
     if _installed[0]:
         return
@@ -254,7 +273,8 @@ class RunB:
         self.step += 1
         tid = self.current
         if code is not None and self.cancels and \
-                self.step >= self.cancels[0] and self.in_lib[tid]:
+                self.step >= self.cancels[0] and self.in_lib[tid] and \
+                not _is_with_line(code, line):
             self.cancels.pop(0)
             self.count(self.fired, 'cancel')
             self.ev('cancel', tid, os.path.basename(code.co_filename), line)
@@ -297,6 +317,22 @@ class RunB:
             self.current = target
             self.sems[target].release()
             self.sems[tid].acquire()
+
+    def lock_yield(self):
+        """The running thread is waiting for a library lock another (parked)
+        thread holds: pass the baton, round robin."""
+        tid = self.current
+        others = [t for t in range(self.nthreads)
+                  if t != tid and not self.finished[t]]
+        if not others:
+            raise RuntimeError('library lock held by a finished thread')
+        self.lock_rr = getattr(self, 'lock_rr', 0) + 1
+        target = others[self.lock_rr % len(others)]
+        self.ev('lock-wait', tid, target)
+        self.count(self.fired, 'lock_wait_switch')
+        self.current = target
+        self.sems[target].release()
+        self.sems[tid].acquire()
 
     def worker(self, tid):
         self.sems[tid].acquire()
@@ -589,11 +625,13 @@ class RunB:
         METER.where = None
         METER.active = True
         CURRENT[0] = self
+        lib.LOCK_YIELD[0] = self.lock_yield
         first = tr.get('first', 0) % n
         self.current = first
         self.sems[first].release()
         self.main_sem.acquire()
         CURRENT[0] = None
+        lib.LOCK_YIELD[0] = None
         METER.active = False
         steps = METER.count
         for t in threads:
